@@ -146,6 +146,16 @@ impl<Key, Value> Store<Key, Value>
         }
     }
 
+    /// Returns true if the stored value of the key still carries the given `key_id` and its own expiry has not passed.
+    /// `put_or_update` changes the expiry of the stored value and the entry of `TTLTicker` in two steps,
+    /// so an entry of `TTLTicker` that has come due does not mean that the stored value has expired.
+    pub(crate) fn has_unexpired_value_with_key_id(&self, key: &Key, key_id: &KeyId) -> bool {
+        self.store.get(key).map_or(false, |stored_value| {
+            stored_value.key_id() == *key_id
+                && stored_value.expire_after().map_or(true, |expire_after| !self.clock.has_passed(&expire_after))
+        })
+    }
+
     pub(crate) fn mark_deleted(&self, key: &Key) {
         if let Some(mut pair) = self.store.get_mut(key) {
             let stored_value = pair.value_mut();
